@@ -129,6 +129,7 @@ def analyse_insync(ctx, mod, fn, short, sintl_var="sintlH"):
     cell = fn.args.args[0].arg
     verdicts = {}
     PURE = (ast.Name, ast.Subscript, ast.Constant, ast.Tuple, ast.Slice, ast.Load, ast.UnaryOp, ast.USub)
+    PURE_X = PURE + (ast.BinOp, ast.Add, ast.Sub)
 
     def is_hkl_append(st):
         if isinstance(st, ast.Assign) and isinstance(st.value, ast.Call) and getattr(st.value.func, "attr", "") == "concatenate":
@@ -153,8 +154,17 @@ def analyse_insync(ctx, mod, fn, short, sintl_var="sintlH"):
             s.consts.pop(tgt, None)
             if tgt == sintl_var:
                 if isinstance(v, ast.Call) and getattr(v.func, "id", "") == "sintl" and len(v.args) == 2 \
-                        and isinstance(v.args[0], ast.Name) and v.args[0].id == cell and isinstance(v.args[1], ast.Name):
-                    s.sync = set(s.cls(v.args[1].id))
+                        and isinstance(v.args[0], ast.Name) and v.args[0].id == cell:
+                    arg = v.args[1]
+                    if isinstance(arg, ast.Name):
+                        s.sync = set(s.cls(arg.id))
+                    elif all(isinstance(n_, PURE + (ast.BinOp, ast.Add, ast.Sub)) for n_ in ast.walk(arg)):
+                        # sintl(cell, <expression>): in sync with every name currently bound to that very expression
+                        tmp = "$arg@%d" % v.lineno
+                        transfer(ast.Assign(targets=[ast.Name(id=tmp, ctx=ast.Store())], value=arg, lineno=v.lineno), s)
+                        s.sync = set(s.cls(tmp))
+                    else:
+                        s.sync = set()
                 else:
                     s.sync = set()
                 return
@@ -164,7 +174,7 @@ def analyse_insync(ctx, mod, fn, short, sintl_var="sintlH"):
                 return
             s.remove(tgt)
             free = sorted({n.id for n in ast.walk(v) if isinstance(n, ast.Name)})
-            if tgt not in free and all(isinstance(n, PURE) for n in ast.walk(v)):
+            if tgt not in free and all(isinstance(n, PURE_X) for n in ast.walk(v)):
                 key = ast.dump(v)
                 stamp = tuple(s.ver.get(f, 0) for f in free)
                 for other, (k2, st2) in list(s.exprs.items()):
@@ -190,28 +200,43 @@ def analyse_insync(ctx, mod, fn, short, sintl_var="sintlH"):
                         s.remove(x.id)
                         s.bump(x.id)
 
+    # abrupt completion: every block / statement returns (states falling through, states at `break`, states at `continue`);
+    # a `return` ends the path
     def block(stmts, states):
+        brk, cnt = [], []
         for st in stmts:
-            states = stmt(st, states)
+            states, b_, c_ = stmt(st, states)
+            brk += b_
+            cnt += c_
             if not states:
                 break
-        return states
+        return states, brk, cnt
 
     def stmt(st, states):
+        if isinstance(st, ast.Break):
+            return [], [s.copy() for s in states], []
+        if isinstance(st, ast.Continue):
+            return [], [], [s.copy() for s in states]
+        if isinstance(st, (ast.Return, ast.Raise)):
+            return [], [], []
         if isinstance(st, ast.If):
-            outs = []
+            outs, brk, cnt = [], [], []
             for s in states:
                 t = flag_test(st.test, s)
                 if t is not False:
-                    outs += block(st.body, [refine(st.test, s.copy(), True)])
+                    o, b_, c_ = block(st.body, [refine(st.test, s.copy(), True)])
+                    outs += o; brk += b_; cnt += c_
                 if t is not True:
-                    outs += block(st.orelse, [refine(st.test, s.copy(), False)])
-            return merge_states(outs)
+                    o, b_, c_ = block(st.orelse, [refine(st.test, s.copy(), False)])
+                    outs += o; brk += b_; cnt += c_
+            return merge_states(outs), merge_states(brk), merge_states(cnt)
         if isinstance(st, (ast.While, ast.For)):
             test = st.test if isinstance(st, ast.While) else None
+            always = isinstance(test, ast.Constant) and bool(test.value) is True
             head = []           # states at the loop head, merged per flag key
             work = [s.copy() for s in states]
             exits = []
+            broken = []
             for _ in range(200):
                 changed = False
                 for s in work:
@@ -228,11 +253,12 @@ def analyse_insync(ctx, mod, fn, short, sintl_var="sintlH"):
                 if not changed:
                     break
                 work = []
+                broken = []
                 for h in head:
-                    t = flag_test(test, h) if test is not None else None
+                    t = True if always else (flag_test(test, h) if test is not None else None)
                     if t is not False:
                         b = h.copy()
-                        if test is not None:
+                        if test is not None and not always:
                             refine(test, b, True)
                         if isinstance(st, ast.For):
                             for x in ast.walk(st.target):
@@ -240,14 +266,19 @@ def analyse_insync(ctx, mod, fn, short, sintl_var="sintlH"):
                                     b.remove(x.id)
                                     b.consts.pop(x.id, None)
                                     b.bump(x.id)
-                        work += block(st.body, [b])
+                        o, b_, c_ = block(st.body, [b])
+                        work += o + c_
+                        broken += b_
             else:
                 raise AnalysisError("in-sync analysis did not converge")
             for h in head:
-                t = flag_test(test, h) if test is not None else None
+                t = True if always else (flag_test(test, h) if test is not None else None)
                 if t is not True:
                     exits.append(refine(test, h.copy(), False) if test is not None else h.copy())
-            return merge_states(exits)
+            if st.orelse:
+                exits, b2, c2 = block(st.orelse, merge_states(exits))
+                return merge_states(exits + broken), b2, c2
+            return merge_states(exits + broken), [], []
         name = is_hkl_append(st)
         if name is not None:
             for s in states:
@@ -255,7 +286,7 @@ def analyse_insync(ctx, mod, fn, short, sintl_var="sintlH"):
                 verdicts[k] = verdicts.get(k, True) and (name in s.sync)
         for s in states:
             transfer(st, s)
-        return merge_states(states)
+        return merge_states(states), [], []
     block(core.body_wo_doc(fn), [SyncState()])
     return verdicts
 
@@ -344,30 +375,14 @@ def run(ctx):
         fn = mod.func("genhkl_base")
         where = core.loc(mod, fn)
         npa = mod.np_alias
-        # shell: the test that mentions both bounds
-        tests = [n_ for n_ in ast.walk(fn) if isinstance(n_, ast.If) and {"sintlmin", "sintlmax"} <= {x.id for x in ast.walk(n_.test) if isinstance(x, ast.Name)}]
-        oks = False
-        sv = None
-        if len(tests) == 1:
-            t = tests[0].test
-            if isinstance(t, ast.BoolOp) and isinstance(t.op, ast.And) and len(t.values) == 2:
-                parts = {}
-                for c in t.values:
-                    if isinstance(c, ast.Compare) and len(c.ops) == 1 and isinstance(c.left, ast.Name) and isinstance(c.comparators[0], ast.Name):
-                        parts[c.comparators[0].id] = (c.left.id, type(c.ops[0]).__name__)
-                    elif isinstance(c, ast.Compare) and len(c.ops) == 1 and isinstance(c.left, ast.Name) and isinstance(c.comparators[0], ast.Name) is False:
-                        pass
-                    # mirrored spelling: sintlmin < s
-                    if isinstance(c, ast.Compare) and len(c.ops) == 1 and isinstance(c.left, ast.Name) and c.left.id in ("sintlmin", "sintlmax") \
-                            and isinstance(c.comparators[0], ast.Name):
-                        flip = {"Lt": "Gt", "LtE": "GtE", "Gt": "Lt", "GtE": "LtE"}[type(c.ops[0]).__name__]
-                        parts[c.left.id] = (c.comparators[0].id, flip)
-                if set(parts) == {"sintlmin", "sintlmax"} and parts["sintlmin"][0] == parts["sintlmax"][0]:
-                    sv = parts["sintlmin"][0]
-                    oks = parts["sintlmin"][1] == "Gt" and parts["sintlmax"][1] == "LtE"
-        ctx.check(oks, "C06:shell:%s" % short, "acceptance is not `s > sintlmin and s <= sintlmax` (exclusive lower, inclusive upper bound)", where)
-        if sv is None:
-            raise AnalysisError("%s.genhkl_base: shell test not found" % short)
+        # shell: every test on the running sin(theta)/lambda evaluated on the regions of its value (props/hklwalk.py)
+        from props.hklwalk import analyse_tests, analyse_tail, analyse_steps
+        shell_tests, svars = analyse_tests(ctx, mod, short, emit=("shell",))
+        tests = [n_ for n_ in ast.walk(fn) if isinstance(n_, ast.If) and any(n_.test is t_ for t_ in shell_tests)]
+        if len(tests) != 1 or len(svars) != 1:
+            raise AnalysisError("%s.genhkl_base: acceptance test / running sin(theta)/lambda variable not identified (%d tests, names %s)"
+                                % (short, len(tests), sorted(svars)))
+        sv = sorted(svars)[0]
         # in-sync
         verdicts = analyse_insync(ctx, mod, fn, short, sintl_var=sv)
         if not verdicts:
@@ -383,30 +398,8 @@ def run(ctx):
         ok_pair = len(hk) == 1 and len(sl_) == 1 and len(blk) == 2
         ctx.check(ok_pair, "C06:insync:%s:paired-append" % short,
                   "the accepted hkl row and its sin(theta)/lambda are not appended together (and only they) under the shell test", where)
-        Hn = hk[0]["M_H"] if hk else None
-        Sn = sl_[0]["M_S"] if sl_ else None
-        # sort
-        b0 = {"M_H": Hn, "M_S": Sn}
-        s1 = core.find_stmt("M_S = NP.transpose([M_S])", fn, b0, npa)
-        s2 = core.find_stmt("M_H = NP.concatenate((M_H, M_S), 1)", fn, b0, npa)
-        s3 = core.find_stmt("M_H = M_H[NP.argsort(M_H, 0)[:, 3], :]", fn, b0, npa)
-        rets = [n_ for n_ in ast.walk(fn) if isinstance(n_, ast.Return) and isinstance(n_.value, ast.Name)]
-        ok_sort = len(s1) == len(s2) == len(s3) == 1 and s1[0][0].lineno < s2[0][0].lineno < s3[0][0].lineno \
-            and any(r_.value.id == Hn and r_.lineno > s3[0][0].lineno for r_ in rets)
-        ctx.check(ok_sort, "C06:sort:%s" % short,
-                  "the rows are not [hkl | stl] sorted by the stl column (argsort over column 3) before being returned", where)
-        # the walk advances by the three generators of the current cone
-        steps = {}
-        for n_ in ast.walk(fn):
-            b = core.match_stmt("M_A = M_B + segm[M_i, X_k, :]", n_, {}, npa) if isinstance(n_, ast.Assign) else None
-            if b:
-                k = n_.value.right.slice.elts[1]
-                if isinstance(k, ast.Constant):
-                    steps.setdefault(k.value, []).append((b["M_A"], b["M_B"]))
-        ok_steps = sorted(steps) == [1, 2, 3] and all(len(v) == 1 for v in steps.values()) \
-            and steps[2][0][0] == steps[2][0][1] and steps[3][0][0] == steps[3][0][1]
-        ctx.check(ok_steps, "C06:sort:%s:steps" % short,
-                  "the walk does not advance by the cone generators g1 (row), g2 (plane), g3 (cone) of the current table: %s" % steps, where)
+        analyse_tail(ctx, mod, short)
+        analyse_steps(ctx, mod, short)
         # genhkl_unique and genhkl_all: evaluated on a model group (props/hklwrap.py)
         from props.hklwrap import analyse_unique, analyse_expand
         analyse_unique(ctx, mod, short)
